@@ -578,7 +578,7 @@ def _explore(ctx, drv, rng, tmp, static_cells, effects, mech, tinfo):
         for a in ks[:4]:
             for b in ks[:4]:
                 pairs.append((a, b))
-    budget_s = 9.0 if not ctx.thorough else 150.0
+    budget_s = 7.0 if not ctx.thorough else 150.0
     cross = [(a, b) for a in all_keys for b in all_keys if a[0] != b[0]]
     rng.shuffle(cross)
     t0 = time.time()
@@ -602,7 +602,7 @@ def _explore(ctx, drv, rng, tmp, static_cells, effects, mech, tinfo):
     same = [(a, b) for n, ks in fam.items() for a in ks[:3] for b in ks[:3]]
     crossc = [(a, b) for a in cheap for b in cheap if a[0] != b[0]]
     rng.shuffle(crossc)
-    budget_s = 9.0 if not ctx.thorough else 150.0
+    budget_s = 7.0 if not ctx.thorough else 150.0
     t0 = time.time()
     npairs = 0
     for a, b in same + crossc:
